@@ -675,9 +675,11 @@ def _r2(ctx):
     objn = bc[0].targets[0].elts[1].id if bc and len(bc[0].targets[0].elts) == 2 and isinstance(bc[0].targets[0].elts[1], ast.Name) else None
     idxn = [s_.targets[0].id for s_ in f.node.body if isinstance(s_, ast.Assign) and isinstance(s_.targets[0], ast.Name) and
             isinstance(s_.value, ast.Call) and call_name(s_.value) == "pd.MultiIndex.from_arrays"]
-    ok = objn is not None and len(idxn) == 1 and isinstance(v, ast.Call) and call_name(v) == "pd.Series" and v.args and \
-        norm_text(v.args[0]) == objn + ".values" and \
-        norm_text(next((k.value for k in v.keywords if k.arg == "index"), ast.Constant(None))) == idxn[0]
+    ikw = next((k.value for k in v.keywords if k.arg == "index"), None) if isinstance(v, ast.Call) else None
+    rebuilt = ikw is not None and ((isinstance(ikw, ast.Name) and idxn == [ikw.id]) or
+                                   (isinstance(ikw, ast.Call) and call_name(ikw) == "pd.MultiIndex.from_arrays"))
+    ok = objn is not None and isinstance(v, ast.Call) and call_name(v) == "pd.Series" and v.args and \
+        norm_text(v.args[0]) == objn + ".values" and rebuilt
     if ok:
         ctx.holds(f, ret, "histogram: cycle values pass through unchanged, only the index is rebuilt")
     else:
